@@ -118,6 +118,26 @@ def thin(dist, p):
     return out
 
 
+def lossy_distribution(Uc, occ, loss):
+    """Exact outcome distribution behind the lossy matrix A = diag(loss) U, from a unitary
+    dilation on 2d modes (environment traced out); independent of piquasso."""
+    import numpy as np
+
+    d = len(occ)
+    A = np.diag(loss) @ np.array(Uc, dtype=complex)
+
+    W, S, Xh = np.linalg.svd(A)
+    C = np.sqrt(np.clip(1.0 - S ** 2, 0.0, None))
+    # V = (W + I) [[S, C], [C, -S]] (X^dagger + I): unitary, upper-left block A
+    V = np.block([[W @ np.diag(S) @ Xh, W @ np.diag(C)], [np.diag(C) @ Xh, -np.diag(S)]])
+    assert np.allclose(V[:d, :d], A, atol=1e-12) and np.allclose(V @ V.conj().T, np.eye(2 * d), atol=1e-7)
+    born = born_distribution(V.tolist(), list(occ) + [0] * d)
+    out = {}
+    for t, p in born.items():
+        out[t[:d]] = out.get(t[:d], 0.0) + p
+    return out
+
+
 def condition(dist, ps_modes, ps_photons, measure=None):
     out = {}
     for t, pr in dist.items():
@@ -293,7 +313,8 @@ def law_cases(rng, thorough):
             add("postselect", U=ujson(U), input=occ, ps_modes=[m], ps_photons=[c])
             add("uniform-loss+postselect", U=ujson(U), input=occ, eta=float(rng.choice([F(4, 5), F(3, 5)])),
                 ps_modes=[m], ps_photons=[c], trials=1)
-            add("nonuniform-loss", U=ujson(U), input=occ, loss=[float(rng.choice([F(9, 10), F(4, 5), F(7, 10)])) for _ in range(d)])
+            add("nonuniform-loss", U=ujson(U), input=occ,
+                loss=[float(x) for x in rng.sample([F(9, 10), F(4, 5), F(7, 10), F(3, 5), F(1, 2)], d)])
             add("loss-on-one-mode", U=ujson(U), input=occ, loss=[0.9] + [1.0] * (d - 1))
             if cheap_only:
                 continue
@@ -326,8 +347,7 @@ def ev_coq(e):
 
 
 def run(chk: Check):
-    if os.environ.get("C02_DEV_SKIP_PROOFS") != "1":   # development aid only
-        chk.proofs()
+    chk.proofs()
     T = chk.thorough
     rng = chk.rng
     corpus = load_corpus()
@@ -368,7 +388,9 @@ def run(chk: Check):
                                % (c["id"], r["sample"]))
             continue
         d, n = len(c["input"]), sum(c["input"])
-        evs = clist(r["events"], ev_coq)
+        # the implementation reads its generator lazily, the model wants a whole pass of events
+        # to be present: pad with n unread `Lost` events and require exactly those to be left over
+        evs = clist(r["events"] + ([["L"]] * n if c["kind"] != "plain" else []), ev_coq)
         if c["kind"] == "plain":
             fq = [m for m, k in enumerate(c["input"]) for _ in range(k)]
             items.append("(zl_eqb (generate_sample %s %s %s) %s && (List.length %s =? %d)%%nat)"
@@ -381,8 +403,8 @@ def run(chk: Check):
             if r["sample"] == "TooManyTrials":
                 items.append("match %s with TooManyTrials => true | _ => false end" % call)
             else:
-                items.append("match %s with Accepted s _ [] => zl_eqb s %s | _ => false end"
-                             % (call, clist(r["sample"])))
+                items.append("match %s with Accepted s _ rest => zl_eqb s %s && (List.length rest =? %d)%%nat | _ => false end"
+                             % (call, clist(r["sample"]), n))
         ids.append(c["id"])
     chunk = 250
     for i in range(0, len(items), chunk):
@@ -489,6 +511,8 @@ def run(chk: Check):
              "dist": "post-selection probability / table / conditioned sampler of the distinguishable photons (model of the repaired, non-aliased code)",
              "counts": "sample_from_probability_map binning",
              "dyne": "(mean, cov) handed to multivariate_normal (model of the repaired code: (sigma + hbar sigma_m)/2)"}
+    json.dump({"bad": bad, "impl": {k: impl[k] for k in ("postselect", "dist")}},
+              open(os.path.join(VERIF, ".run", "c02_last_ties.json"), "w"))
     for stream, lst in bad.items():
         if lst:
             corr_broken.append("%s: model != implementation on %d case(s), first ids %s" % (names[stream], len(lst), lst[:5]))
@@ -640,6 +664,18 @@ def run(chk: Check):
             if c.get("eta") is not None:
                 born = thin(born, c["eta"] ** 2)
             refs.append(("permanent formula (harness)", condition(born, ps_modes, ps_photons)))
+        if c.get("overlap") is None and c.get("loss") is not None:
+            Uc = [[complex(a, b) for a, b in row] for row in c["U"]]
+            indep = condition(lossy_distribution(Uc, c["input"], c["loss"]), ps_modes, ps_photons)
+            refs.append(("unitary dilation + permanent formula (harness)", indep))
+            if refs[0][0].startswith("State") and law_distance(refs[0][1][0], indep[0]) > 1e-8 \
+                    and law_distance(cond, indep[0]) <= 1e-8:
+                # the sampler is right, the state's own probability function is not
+                chk.violation("C02:PassiveState.fock_probabilities:lossy-complex-interferometer",
+                              "State.fock_probabilities_map of a non-uniformly lossy state differs by %.3g from the exact distribution (unitary dilation); the sampler's law agrees with the dilation" % law_distance(refs[0][1][0], indep[0]),
+                              dict(wit, state_map={str(k): round(v, 9) for k, v in refs[0][1][0].items() if v > 1e-12},
+                                   exact={str(k): round(v, 9) for k, v in indep[0].items() if v > 1e-12}))
+                refs.pop(0)
         for name, (ref, pacc) in refs:
             dist_ = law_distance(cond, ref)
             wit2 = dict(wit, sampler_law={str(k): round(v, 9) for k, v in cond.items()},
